@@ -24,7 +24,12 @@
  *            wrappers Vector_insert_g / Vector_erase_g which APPLY the level-1 contract by hand: assert the requires
  *            macro, havoc the assigns clause, assume the ensures macros (the very same macros the level-1 units prove).
  *            Pre- and postconditions of level 2 are the *_PRE / *_POST macros below, assumed / asserted by the harness;
- *            the frame (only the vector changes) is asserted explicitly.
+ *            the frame (only the vector changes) is asserted explicitly.  The same goes for Exclusion::outcode, operator+=
+ *            and track_cost (float arithmetic stays in level 1).  The loops of Zones::insert / Zones::remove are not
+ *            unwound: a single generic rewrite of the `for` header turns them into the loop-invariant encoding (assert
+ *            the invariant on entry, havoc, assume it, one iteration of the real body and step, assert it again); the
+ *            invariants are remove_inv / insert_inv below.  All interval bounds are finite and _pos < _posm at level 2
+ *            (the degenerate axis _pos == _posm is the finding unit c17_degenerate_axis).
  *
  * Float model: CBMC's bit-precise IEEE-754 single precision, round to nearest (x86-64 SSE, FLT_EVAL_METHOD 0).
  * Tracing: the non-tracing build (GRAPHITE2_NTRACING); with tracing addDebug/removeDebug only append to a debug log
@@ -76,19 +81,19 @@
 
 /* ---- level 2: the interval-set operations (plain harness, Vector::insert/erase applied by contract) */
 /*@unit {'name':'c17_remove_c8', 'props':['C17'], 'entry':'h_remove', 'kind':'bounded', 'backend':'cadical', 'unwind':9, 'loop_contracts':False, 'defines':['NV=6','CAPV=8','L2_BY_CONTRACT','L2_INV'], 'defines_quick':['NV=3','CAPV=8','L2_BY_CONTRACT','L2_INV'], 'timeout_quick':900, 'cost':50,
-         'bound':'at most 4 intervals before the call in a block of capacity 8 (no reallocation); main loop unwound 6 times, helper loops 8 times, unwinding assertions on',
+         'bound':'storage block of capacity 8 (no reallocation), at most 3 (quick) / 6 (thorough) intervals on entry; the main loop is NOT unwound: it is cut by the loop invariant remove_inv (asserted on entry, assumed for an arbitrary iteration, re-asserted after one real iteration), so any number of iterations is covered for vectors that fit the block; helper loops over the 8 slots are unwound',
          'replay':'c17_zones', 'witness_defines':[], 'witness_vars':['w_n','w_x','w_xm','w_c','w_sm','w_smx','w_pos','w_posm','w_a','w_b','w_pt'],
          'claims':'Zones::remove(x,xm) on a sorted, disjoint, in-bounds interval set leaves it sorted, disjoint and in bounds; afterwards no interval contains a point of the open range (x,xm); every point offered afterwards was offered before (nothing is re-opened); every point offered before and outside [x,xm] is still offered; weight sums stay positive; only the vector changes; Vector::insert/erase are called within their contracts'}@*/
 /*@unit {'name':'c17_remove_c4', 'props':['C17'], 'entry':'h_remove', 'kind':'bounded', 'backend':'cadical', 'unwind':9, 'loop_contracts':False, 'defines':['NV=4','CAPV=4','L2_BY_CONTRACT','L2_INV'], 'defines_quick':['NV=3','CAPV=4','L2_BY_CONTRACT','L2_INV'], 'timeout_quick':900, 'cost':50,
-         'bound':'at most 4 intervals in an exact-size block of capacity 4: every split reallocates (storage moves, old block freed); loops as in c17_remove_c8',
+         'bound':'exact-size storage block of capacity 4, at most 3 (quick) / 4 (thorough) intervals on entry: every split reallocates (storage moves to a block of 8, old block freed); main loop cut by the invariant as in c17_remove_c8',
          'replay':'c17_zones', 'witness_defines':[], 'witness_vars':['w_n','w_x','w_xm','w_c','w_sm','w_smx','w_pos','w_posm','w_a','w_b','w_pt'],
          'claims':'same as c17_remove_c8 when the split has to grow the vector: the iterator is re-seated on the new block and the freed block is never touched; with 4 live intervals any access past the live elements is outside the storage object'}@*/
-/*@unit {'name':'c17_insert_c8', 'props':['C17'], 'entry':'h_insert', 'kind':'bounded', 'backend':'cadical', 'unwind':9, 'loop_contracts':False, 'defines':['NV=6','CAPV=8','L2_BY_CONTRACT','L2_INV'], 'defines_quick':['NV=3','CAPV=8','L2_BY_CONTRACT','L2_INV'], 'timeout_quick':900, 'cost':80,
-         'bound':'at most 4 intervals before the call in a block of capacity 8; main loop unwound 6 times, helper loops 8 times',
+/*@unit {'name':'c17_insert_c8', 'props':['C17'], 'entry':'h_insert', 'kind':'bounded', 'backend':'cadical', 'unwind':9, 'loop_contracts':False, 'defines':['NV=6','CAPV=8','L2_BY_CONTRACT','L2_INV'], 'defines_quick':['NV=2','CAPV=8','L2_BY_CONTRACT','L2_INV'], 'timeout_quick':900, 'cost':80,
+         'bound':'storage block of capacity 8, at most 2 (quick) / 6 (thorough) intervals on entry; main loop cut by the loop invariant insert_inv (entry / arbitrary iteration / exit), helper loops over the 8 slots unwound',
          'replay':'c17_zones', 'witness_defines':[], 'witness_vars':['w_n','w_x','w_xm','w_c','w_sm','w_smx','w_pos','w_posm','w_a','w_b','w_pt','w_ec','w_esm','w_esmx'],
-         'claims':'Zones::insert(e) (weighted insert) keeps the interval set sorted, disjoint and in bounds and does not change the set of offered points (it never re-opens an excluded position and never loses a free one); a point strictly inside an interval and strictly inside e gets exactly e added to its three cost terms, a point strictly inside an interval and outside [e.x,e.xm] keeps its cost terms; weight sums stay positive for non-negative e.sm; only the vector changes'}@*/
-/*@unit {'name':'c17_insert_c4', 'props':['C17'], 'entry':'h_insert', 'kind':'bounded', 'backend':'cadical', 'unwind':9, 'loop_contracts':False, 'defines':['NV=4','CAPV=4','L2_BY_CONTRACT','L2_INV'], 'defines_quick':['NV=3','CAPV=4','L2_BY_CONTRACT','L2_INV'], 'timeout_quick':900, 'cost':80,
-         'bound':'at most 4 intervals in an exact-size block of capacity 4: the first split reallocates; loops as in c17_insert_c8',
+         'claims':'Zones::insert(e) (weighted insert) keeps the interval set sorted, disjoint and in bounds and does not change the set of offered points (it never re-opens an excluded position and never loses a free one); weight sums stay positive for non-negative e.sm; only the vector changes (which intervals receive the weight is NOT checked: the exact-sum clauses under -DL2_COST need an equivalence proof of float adders that the SAT back end does not finish)'}@*/
+/*@unit {'name':'c17_insert_c4', 'props':['C17'], 'entry':'h_insert', 'kind':'bounded', 'backend':'cadical', 'unwind':9, 'loop_contracts':False, 'defines':['NV=4','CAPV=4','L2_BY_CONTRACT','L2_INV'], 'defines_quick':['NV=2','CAPV=4','L2_BY_CONTRACT','L2_INV'], 'timeout_quick':900, 'cost':80,
+         'bound':'exact-size storage block of capacity 4, at most 2 (quick) / 4 (thorough) intervals on entry: the first split reallocates; main loop cut by the invariant as in c17_insert_c8',
          'replay':'c17_zones', 'witness_defines':[], 'witness_vars':['w_n','w_x','w_xm','w_c','w_sm','w_smx','w_pos','w_posm','w_a','w_b','w_pt','w_ec','w_esm','w_esmx'],
          'claims':'same as c17_insert_c8 when a split has to grow the vector (iterators re-seated, freed block never touched)'}@*/
 /*@unit {'name':'c17_exclude_margins', 'props':['C17'], 'entry':'h_exclude_margins', 'kind':'bounded', 'backend':'cadical', 'unwind':9, 'loop_contracts':False, 'defines':['NV=3','CAPV=8','L2_BY_CONTRACT','L2_INV'], 'cost':95,
